@@ -2,7 +2,11 @@
 import json, os
 from tools import vlib
 
-THEOREMS = []
+THEOREMS = ["Rink.Spec.C04.eval_never_panics", "Rink.Spec.C04.evalExpr_noPanic", "Rink.Spec.C04.ctxOK_of_checks",
+            "Rink.Spec.C04.applyBin_noPanic", "Rink.Spec.C04.applyFunc_noPanic", "Rink.Spec.C04.get_noPanic",
+            "Rink.Spec.C04.pow_noPanic", "Rink.Spec.C04.div_noPanic", "Rink.Spec.C04.rem_noPanic",
+            "Rink.Spec.C04.shl_noPanic", "Rink.Spec.C04.shr_noPanic",
+            "Rink.Spec.C13.next_progress"]
 
 
 def judge(text, impl, aux):
@@ -21,18 +25,32 @@ def judge(text, impl, aux):
 
 
 def run(c):
+    c.trusted += [
+        "termination of lexer, parser and evaluator is Lean's own totality check on the model (structural or fuel recursion); running time and stack depth of the compiled Rust are exercised by the stream, not proved",
+    ]
     c.assumptions += [
+        "the no-panic theorem covers eval_expr (every operator, function, temperature suffix, substance property); the panic sites of eval_query outside it (definition display, conversion targets, unit lists, temperature conversions) are in the model as explicit panic outcomes and are exercised by the stream, not yet proved unreachable",
         "cheap / expensive is a lexical bound computed by the generator (harness/src/gen_totality.rs::classify): an input is expensive when it has two or more power-like operators (^, **, <<, >>, superscripts, exp, factorize), a number of four or more digits right after one of them or after an exponent marker or `digits` / `base`, or a power applied to the previous answer; only a time-out on a cheap input is a violation",
         "the budget is 3 s per input on a loaded machine; a time-out is re-run alone with 60 s before it counts",
         "the context is long-lived: sessions of 10-50 inputs share one Context (ans, the pinned clock), sessions are separated by `reset`",
     ]
     if not c.build_harness():
         return
-    if not c.build_lean(["rinkmodel"]):
+    if not c.build_lean(["Rink.Props.C04", "Rink.Props.C13", "rinkmodel"]):
         return
+    c.audit("Rink.Props.C04", [t for t in THEOREMS if ".C04." in t])
+    if c.thorough:
+        c.leanchecker(["Rink.Model.Eval", "Rink.Model.Number", "Rink.Props.C04"])
     st = vlib.eval_stream(c, "gen-c04", independent=False, budget_ms=3000, judge=judge, group_start="reset", ans_taint=True)
     if st is None:
         return
+    # the hypotheses of eval_never_panics, evaluated on the dump of the real registry
+    rc, out = vlib.sh([vlib.MODEL, "ctxok", os.path.join(c.work, "registry.dump")])
+    ok = rc == 0 and "degrees=true" in out and "substances=true" in out
+    c.obligations.append(("hypotheses of eval_never_panics hold for the loaded registry (rinkmodel ctxok)", ok, out.strip()[:200]))
+    if not ok:
+        c.violation("ctxok", "the database facts that keep eval_expr away from its panic sites do not hold for the loaded registry: %s" % out.strip()[:200],
+                    {"kind": "obligation", "obligation": "rinkmodel ctxok registry.dump", "output": out[-1000:]}, found=False)
     c.coverage.update({
         "exhaustive": False,
         "rule": "lines of at most 500 characters from five sources - the query strings of the test suite and the manual (seed corpus, %d), grammar-directed queries over the whole surface syntax (numbers in every notation, units, prefixes, plurals, dates, substances, functions, temperature scales, every conversion target and command), token soup, mutations of seeds and generated queries (character/token insert, delete, duplicate, swap, splice, repeat), raw Unicode, and long-but-cheap structural extremes - evaluated one after another on long-lived contexts; every reply is rendered as text, span tree and JSON; panic (with source location), process death and time-out on a cheap input are violations; answers are compared with the Lean model where the model applies" % st.get("seed_corpus", 0),
